@@ -281,6 +281,11 @@ func (pathTargets *pathSubqueryMetadata) extractKeys(node interface{}, path []Pa
 	}
 
 	if len(path) == 0 {
+		if node == nil {
+			// A null object (or null list entry) has nothing to fetch from
+			// the other service; it stays null in the result.
+			return nil
+		}
 		obj, ok := node.(map[string]interface{})
 		if !ok {
 			return fmt.Errorf("not an object: %v", obj)
